@@ -21,7 +21,7 @@
 From Verif Require Import Base.GoSem Base.GoStrings Base.GoStringsProofs.
 From Verif Require Import Css.Urls Css.UrlsProofs Css.PageSel Css.PageSelProofs
   Css.HtmlAttr Css.HtmlAttrProofs Css.SvgAttr Css.SvgAttrProofs Css.ColorMq Css.ColorMqProofs
-  Css.W3cDate Css.W3cDateProofs.
+  Css.W3cDate Css.W3cDateProofs Css.SvgAttrMore.
 From Coq Require Import List ZArith NArith Bool.
 Import ListNotations.
 Open Scope Z_scope.
@@ -287,3 +287,30 @@ Proof.
         (conj import_media_total parse_w3c_date_total)))))))))))))))).
 Qed.
 Print Assumptions C07_modelled_parsers_total.
+
+(* ---- final round: correctness laws of total SVG attribute parsers (Css/SvgAttrMore.v) ---- *)
+Theorem C07_parse_font_weight_result : forall s v,
+  parse_font_weight s = Ok v -> v = 400 \/ v = 700 \/ atoi s = Some v.
+Proof. exact parse_font_weight_result. Qed.
+Print Assumptions C07_parse_font_weight_result.
+
+Theorem C07_parse_value_none_iff : forall s,
+  parse_value s = Ok None <-> list_eqb (trim_space s) [] = true.
+Proof. exact parse_value_none_iff. Qed.
+Print Assumptions C07_parse_value_none_iff.
+
+Theorem C07_parse_opacity_plain : forall value,
+  list_eqb (trim_space value) [] = false -> has_suffix (trim_space value) [37%N] = false ->
+  parse_opacity value = Ok (Some (false, trim_space value)).
+Proof. exact parse_opacity_plain. Qed.
+Print Assumptions C07_parse_opacity_plain.
+
+Theorem C07_parse_opacity_none_iff : forall value,
+  parse_opacity value = Ok None <-> list_eqb (trim_space value) [] = true.
+Proof. exact parse_opacity_none_iff. Qed.
+Print Assumptions C07_parse_opacity_none_iff.
+
+Theorem C07_new_painter_color : forall attr c,
+  new_painter attr = Ok (PaintColor c) -> c = trim_space attr /\ has_prefix (trim_space attr) s_url_open = false.
+Proof. exact new_painter_color. Qed.
+Print Assumptions C07_new_painter_color.
